@@ -10,7 +10,7 @@ import (
 )
 
 func init() {
-	propertyRules["C15"] = []ruleFn{ruleTimestamp, rulePool, ruleRequestArgs, ruleProposalFields, ruleCacheObl}
+	propertyRules["C15"] = []ruleFn{ruleTimestamp, rulePool, ruleRequestArgs, ruleProposalFields, ruleCacheObl, ruleViewResetCover}
 	propertyExplain["C15"] = "A-TIMESTAMP: on every non-declining path of the proposal builder the stored Timestamp is max(lastBlockTimestamp + TimestampIncrement, T) — decided semantically from the path conditions and the symbolic final value — where T is the result of the truncation function, whose normal form is (UnixNano(Timer.Now()) div I)·I with I = TimestampIncrement; lastBlockTimestamp comes only from the initialiser's parameter. P-POOL: hashes and transactions are copied from the pool result index by index. P-REQUEST-ARGS: NewPrepareRequest(Timestamp, Nonce, TransactionHashes). O-PROPOSAL/L2-OBL: the primary's own block is built from the same fields and header caches are dropped on every epoch write. Sanity of the clock and nonce uniqueness are not decided."
 	propertyRules["C16"] = []ruleFn{ruleOptionalCB, ruleSubscribeOwner, ruleDeclinePure, ruleNoIdleCV, ruleForce, ruleRearm, ruleTimerOwner}
 	propertyExplain["C16"] = "Structural clauses only: the subscription callback and MaxTimePerBlock are called only when the extension is configured; one subscription wrapper sets the flag, which is cleared by every request send, forced timeout and epoch write; a declining proposal builder has no effect; the timeout handler's ChangeView is not reachable for an idle backup on its first view-0 timeout; OnNewTransaction forces the pending timeout only while subscribed with the timer's own epoch. Every timing clause (minimum spacing, 'only once the maximum elapsed', promptness) depends on numeric relations between durations and the clock and is not applicable to static analysis."
@@ -130,7 +130,7 @@ func ruleTimestamp(c *RC) *RuleResult {
 	for _, s := range ws {
 		for _, sn := range s.Snaps {
 			r.Sites++
-			if s.Fn == c.A.epochWriter && sn.Val != nil && sn.Val.K == KParam {
+			if c.inEpoch(s.Fn) && sn.Val != nil && sn.Val.K == KParam {
 				r.ok("lastBlockTimestamp ← parameter " + sn.Val.S + " of the epoch writer")
 			} else {
 				r.fail(s.Fn.Name+"/write:ctx.lastBlockTimestamp", c.Prog.Pos(s.Node), "lastBlockTimestamp assigned outside the epoch writer or not from its parameter")
@@ -169,7 +169,12 @@ func rulePool(c *RC) *RuleResult {
 		return r
 	}
 	var sawMake, sawHash, sawTx bool
-	for _, s := range c.A.FnSites[b] {
+	rec := c.inlineSites(b, false)
+	var bsites []*Site
+	for _, ss := range rec.FnSites {
+		bsites = append(bsites, ss...)
+	}
+	for _, s := range bsites {
 		if s.Kind != "write" {
 			continue
 		}
@@ -352,7 +357,12 @@ func ruleNoIdleCV(c *RC) *RuleResult {
 		return r
 	}
 	n := 0
-	for _, s := range c.A.FnSites[th] {
+	rec := c.inlineSites(th, false)
+	var tsites []*Site
+	for _, ss := range rec.FnSites {
+		tsites = append(tsites, ss...)
+	}
+	for _, s := range tsites {
 		if s.Kind != "call" || s.Target == nil {
 			continue
 		}
@@ -576,7 +586,7 @@ func ruleRecoveryReplay(c *RC) *RuleResult {
 	if ew := c.A.epochWriter; ew != nil {
 		r.Sites++
 		good := false
-		for _, s := range c.A.FnSites[ew] {
+		for _, s := range c.epochSites() {
 			if s.Kind == "write" && s.Loc == "ctx.LastChangeViewPayloads" {
 				for _, sn := range s.Snaps {
 					if sn.Val != nil && sn.Val.K == KIndex && sn.Val.Args[0].S == "ctx.ChangeViewPayloads" && sn.Idx != nil && sn.Val.Args[1].S == sn.Idx.S {
